@@ -26,7 +26,7 @@ class Prop:
             'messages and interleaved multi-part messages (seeded; every position pattern of wrapper vs delivery for '
             'short sequences), through IterMessages, ByteStream and NMEAQueue; the wrapper of every delivered message '
             'is compared with the Lean model and with the property (the latest valid wrapper since the previous '
-            'delivery, else none; fields = those of the wrapper line); non-trivial = a wrapper was attached')
+            'delivery, else none; fields = those of the wrapper line); non-trivial = a wrapper was attached ; twin wrappers (same fields, other text), wrapper tags in other letter case, readers consumed in two steps / over a polled source')
     assumptions = []
     last_valid = None
 
